@@ -387,7 +387,7 @@ func checkCli(c CliCase) error {
 	case "args":
 		args = append(args, c.Names...)
 	case "file":
-		args = append(args, "-f", cli.Write(dir, "tips.txt", c.tipFile()))
+		args = append(args, "-f", cli.Write(dir, "tips.txt", cli.AuxLayout("tips.txt", c.tipFile())))
 	case "comp":
 		// the compared tree holds the tips that are NOT named (plus a foreign one): the command
 		// removes the tips of the input tree that are absent from the compared tree
